@@ -133,7 +133,7 @@ def in_quantifier(t):
     return "$" not in rest and "http" not in rest and "www." not in rest
 
 
-def mk_library(texts, with_np=True, order=None, np_only=None):
+def mk_library(texts, with_np=True, order=None, np_only=None, named=False):
     from bibtexparser import model as M
     from bibtexparser.library import Library
     from bibtexparser.middlewares import NameParts
@@ -153,6 +153,9 @@ def mk_library(texts, with_np=True, order=None, np_only=None):
     blocks = [M.String("str" + "é", t[2], 0, "@string{raw}"), e, M.Preamble("pre " + t[0], 9, "@preamble{raw}"), M.ExplicitComment("c " + t[1], 10, "@comment{raw}"),
               M.ImplicitComment("% " + t[2], 11, "% raw"), M.ParsingFailedBlock(BlockAbortedException("x", 1), 12, "@failed{" + t[0]),
               M.Entry("book", "second", [M.Field("title", t[2], 20)], 19, "raw2")]
+    # what else is in the library must not matter: @string blocks NAMED like a field's text (seed C18-g)
+    if named:
+        blocks += [M.String(t[0], "named like the title", 40, "@string{raw4}"), M.String(t[1], t[1], 41, "@string{raw5}")]
     if np_only is not None:
         blocks.append(M.Entry("misc", "nponly", [M.Field("author", NameParts(first=[np_only[0]], von=[np_only[1]], last=[np_only[2]], jr=[np_only[3]]), 30)], 29, "raw3"))
     return Library(blocks)
@@ -191,7 +194,7 @@ def check_rt(case, ctx):
     if len(good) < 3:
         good = (good + ["plain text"] * 3)[:3]
     ctx.mon("calibrated_texts", len(good))
-    lib = mk_library(good)
+    lib = mk_library(good, named=True)
     out = []
     enc = make("enc", case["opts"], case["inplace"])
     dec = make("dec", {}, case["inplace"])
@@ -262,7 +265,7 @@ def public_snapshot(lib, mask_text):
 
 def check_scope(case, ctx):
     texts = case["texts"]
-    lib = mk_library(texts)
+    lib = mk_library(texts, named=True)
     which = case["which"]
     optlist = SCOPE_ENC_OPTS if which == "enc" else SCOPE_DEC_OPTS
     opts = optlist[case["opts"] % len(optlist)]
